@@ -1,4 +1,5 @@
 from __future__ import annotations
+import copy
 from typing import Dict
 from .model import JWSAlgModel
 from ..errors import UnsupportedAlgorithmError
@@ -72,9 +73,16 @@ class JWSRegistry:
 default_registry = JWSRegistry()
 
 
-def construct_registry(algorithms: list[str] | None = None) -> JWSRegistry:
+def construct_registry(
+        algorithms: list[str] | None = None,
+        registry: JWSRegistry | None = None) -> JWSRegistry:
+    if registry is None:
+        if algorithms is not None:
+            return JWSRegistry(algorithms=algorithms)
+        return default_registry
     if algorithms is not None:
-        registry = JWSRegistry(algorithms=algorithms)
-    else:
-        registry = default_registry
+        # an explicit list of allowed algorithms is never ignored: it applies
+        # to this call, everything else comes from the given registry
+        registry = copy.copy(registry)
+        registry.allowed = algorithms
     return registry
